@@ -20,8 +20,8 @@ a list of lines that is empty is written `E`; `N` stands for Python's `None`.
 `R|<lines>|<first>|<astLast>|<stmtEnd>`
   → `range=<a,b,…> spec=<a,b,…> D=<stmtRangeOverrun | ->`
 
-`X|<lines>|<first>|<stmtEnd>|<adds>|<sharesLine><soleInBlock><isElif><pctRisky><decorated><hasWalrus><pctTail>`   (seven 0/1 digits)
-  → `D=<classes | ->`   (stmtRangeOverrun, sharedLine, emptyBlock, elifHeader, fstringConversion, decoratedStmt)
+`X|<lines>|<first>|<stmtEnd>|<adds>|<sharesLine><soleInBlock><isElif><pctRisky><decorated><hasWalrus><pctTail><pctZero><inJoinedStr>`   (nine 0/1 digits)
+  → `D=<classes | ->`   (stmtRangeOverrun, sharedLine, emptyBlock, elifHeader, fstringZeroPrecision, missingFInFstring, fstringConversion, decoratedStmt)
 
 `G|<targets>|<valueBinds>|<u>`   the removal guard of `_check_function_unused_vars` (regenerated `Gen.removalGuard`)
   targets: `K` then K targets, target: `n NAME` | `t K` targets | `l K` targets | `s` target | `o KIND`;
@@ -316,12 +316,13 @@ def handle (line : String) : String :=
     | _, _, _, _ => "bad-op"
   | ["X", ls, first, stmtEnd, adds, flags] =>
     match parseLines ls, first.toNat?, stmtEnd.toNat?, parseAdds adds, flags.toList with
-    | some ls, some first, some stmtEnd, some adds, [a, b, c, e, g, w, pt] =>
+    | some ls, some first, some stmtEnd, some adds, [a, b, c, e, g, w, pt, pz, ij] =>
       let fc : FixCase := { lines := ls, first := first, stmtEnd := stmtEnd, adds := adds,
                             sharesLine := a == '1', soleInBlock := b == '1', isElif := c == '1', pctRisky := e == '1',
-                            decorated := g == '1', hasWalrus := w == '1', pctTail := pt == '1' }
+                            decorated := g == '1', hasWalrus := w == '1', pctTail := pt == '1', pctZero := pz == '1', inJoinedStr := ij == '1' }
       let d := classes [(D16_stmtRangeOverrun ls first stmtEnd, "stmtRangeOverrun"), (D16_sharedLine fc, "sharedLine"),
                         (D16_emptyBlock fc, "emptyBlock"), (D16_elifHeader fc, "elifHeader"),
+                        (D16_fstringZeroPrecision fc, "fstringZeroPrecision"), (D16_missingFInFstring fc, "missingFInFstring"),
                         (D16_fstringConversion fc, "fstringConversion"), (D16_decoratedStmt fc, "decoratedStmt")]
       s!"D={d}"
     | _, _, _, _, _ => "bad-op"
